@@ -42,6 +42,7 @@ func (d *Downloader) NotifyNewSnapshot() {
 // becomes available that can be loaded.
 func (d *Downloader) Run(ctx context.Context) error {
 	for {
+		verifPhase(d, "idle")
 		select {
 		case <-ctx.Done():
 			return context.Canceled
@@ -53,6 +54,7 @@ func (d *Downloader) Run(ctx context.Context) error {
 		// If a newer snapshot shows up, switch to that one.
 		// If a snapshot disappears, this will be reflected in the last seen.
 		for {
+			verifPhase(d, "check")
 			// Get last one seen by Receiver
 			d.r.mu.Lock()
 			ni, exists := d.r.lastSeenByInstance[d.instance]
@@ -71,6 +73,7 @@ func (d *Downloader) Run(ctx context.Context) error {
 			// Do one load attempt
 			if err := d.LoadOnce(ctx, ni); err != nil {
 				d.l.WithError(err).WithField("filename", ni.FullName).Warn("Load error")
+				verifBackoff(ctx, d)
 				if err := utils.SleepContext(ctx, d.c.StorageRetryInterval); err != nil {
 					return err // cancelled
 				}
@@ -86,8 +89,10 @@ func (d *Downloader) Run(ctx context.Context) error {
 
 func (d *Downloader) LoadOnce(ctx context.Context, ni snapshot.NameInfo) error {
 	// Limit number of downloaded compressed snapshots in memory
+	verifPhase(d, "wantDl")
 	downloadToken := d.r.downloadSnapshotLimit.Acquire()
 	defer downloadToken.Release()
+	verifPhase(d, "loading")
 
 	// Fetch the blob from the storage
 	t0 := time.Now()
@@ -110,7 +115,9 @@ func (d *Downloader) LoadOnce(ctx context.Context, ni snapshot.NameInfo) error {
 
 	// Limit number of decompressed snapshots in memory
 	// CAUTION: we cannot defer the Release, check all error paths!
+	verifPhase(d, "wantDc")
 	token := d.r.decompressedSnapshotLimit.Acquire()
+	verifPhase(d, "decoding")
 
 	t1 := time.Now()
 
